@@ -229,23 +229,12 @@ def stripCssComments (s : Str) : Str := stripCommentsFix SanClass.commentsDotall
 
 /-! ### `_EXPRESSION_SEARCH`, `_URL_FINDITER` -/
 
-/-- the text starts with one character of each class in turn -/
-def matchClasses : List (List Nat) → Str → Bool
-  | [], _ => true
-  | _ :: _, [] => false
-  | cl :: cls, c :: cs => inClass cl c && matchClasses cls cs
-
 def searchClasses (cls : List (List Nat)) : Str → Bool
   | [] => matchClasses cls []
   | c :: cs => matchClasses cls (c :: cs) || searchClasses cls cs
 
 /-- `_EXPRESSION_SEARCH(value)` is not `None` -/
 def expressionSearch (v : Str) : Bool := searchClasses SanClass.expressionClasses v
-
-def dropClasses : List (List Nat) → Str → Str
-  | [], s => s
-  | _ :: cls, _ :: cs => dropClasses cls cs
-  | _ :: _, [] => []
 
 /-- one match of `_URL_FINDITER` at the start of the text: group 1 and the text after the match -/
 def urlMatchAt (s : Str) : Option (Str × Str) :=
